@@ -161,6 +161,10 @@ func main() {
 	var selectedMode int
 
 	cfg := nsq.NewConfig()
+	// go-nsq finishes a message without handling it once it has been attempted more
+	// than MaxAttempts (default 5) times; a relay must not acknowledge what no
+	// destination accepted, so the limit is off unless a consumer-opt sets it
+	cfg.MaxAttempts = 0
 
 	flag.Var(&nsq.ConfigFlag{cfg}, "consumer-opt", "option to passthrough to nsq.Consumer (may be given multiple times, http://godoc.org/github.com/nsqio/go-nsq#Config)")
 	flag.Parse()
